@@ -248,6 +248,91 @@ func (d *duplexDisp) VarlinkDispatch(ctx context.Context, c varlink.Call, m stri
 	return fmt.Errorf("duplex done")
 }
 
+// c16FirstContact: a service that has answered nothing yet gets its first calls from several connections at the
+// same instant (readiness is a bare connect, no call), so state the library builds on first use is built while other
+// handlers are looking at it.
+func c16FirstContact(r *fw.Run, reps int, rng *rand.Rand) {
+	frames := []string{
+		`{"method":"org.varlink.service.GetInfo"}`,
+		`{"method":"org.varlink.service.GetInterfaceDescription","parameters":{"interface":"org.example.script"}}`,
+		`{"method":"org.varlink.service.GetInterfaceDescription","parameters":{"interface":"org.varlink.service"}}`,
+		`{"method":"org.example.script.M","parameters":{"id":"f","steps":[{"op":"reply"}]}}`,
+		`{"method":"org.example.nosuch.M"}`,
+		`{"method":"org.example.script.Nosuch"}`,
+	}
+	for k := 0; k < reps; k++ {
+		svc, err := varlink.NewService("Verif", "First", "1", "u")
+		if err != nil {
+			return
+		}
+		log := newEvLog(r)
+		svc.RegisterInterface(&ScriptDisp{Name: "org.example.script", Desc: defaultDesc("org.example.script"), Log: log})
+		svc.RegisterInterface(&ScriptDisp{Name: "org.example.other", Desc: defaultDesc("org.example.other"), Log: log})
+		p := filepath.Join(r.WorkDir, fmt.Sprintf("fc%d", r.Seq()))
+		ctx, cancel := context.WithCancel(context.Background())
+		done := make(chan error, 1)
+		if k%2 == 0 {
+			go func() { done <- svc.Listen(ctx, "unix:"+p, 0) }()
+		} else {
+			if err := svc.Bind(ctx, "unix:"+p); err != nil {
+				cancel()
+				continue
+			}
+			go func() { done <- svc.DoListen(ctx, 0) }()
+		}
+		n := 2 + rng.Intn(5)
+		conns := make([]net.Conn, 0, n)
+		for try := 0; try < 4000 && len(conns) < n; try++ {
+			c, err := net.DialTimeout("unix", p, time.Second)
+			if err != nil {
+				time.Sleep(250 * time.Microsecond)
+				continue
+			}
+			conns = append(conns, c)
+		}
+		gate := make(chan struct{})
+		var wg sync.WaitGroup
+		for i, c := range conns {
+			wg.Add(1)
+			same := k%3 == 0 // every connection starts with the same call / each with its own
+			go func(i int, c net.Conn) {
+				defer wg.Done()
+				<-gate
+				c.SetDeadline(time.Now().Add(10 * time.Second))
+				for j := 0; j < 3; j++ {
+					f := frames[(i+j)%len(frames)]
+					if same && j == 0 {
+						f = frames[k/3%len(frames)]
+					}
+					if _, err := c.Write([]byte(f + "\x00")); err != nil {
+						return
+					}
+					buf := make([]byte, 4096)
+					for {
+						m, err := c.Read(buf)
+						if err != nil || (m > 0 && buf[m-1] == 0) {
+							break
+						}
+					}
+				}
+			}(i, c)
+		}
+		close(gate)
+		wg.Wait()
+		for _, c := range conns {
+			c.Close()
+		}
+		svc.Shutdown()
+		select {
+		case <-done:
+		case <-time.After(20 * time.Second):
+		}
+		cancel()
+		r.Count("first_contact_rounds", 1)
+		r.Count("first_contact_connections", int64(len(conns)))
+	}
+}
+
 func c16Duplex(r *fw.Run, reps int) {
 	svc, err := varlink.NewService("Verif", "Duplex", "1", "u")
 	if err != nil {
@@ -354,6 +439,7 @@ func runC16(r *fw.Run) {
 		c16Client(r, tr, r.Pick(8, 60), rng)
 	}
 	c16Duplex(r, r.Pick(30, 300))
+	c16FirstContact(r, r.Pick(60, 600), rng)
 	// handler I/O under cancellation, per-connection reads under a cancelled serving context
 	scratch := fw.NewRun(r.Tier, r.Seed, r.WorkDir, r.Repo)
 	for k := 0; k < r.Pick(2, 8); k++ {
@@ -407,7 +493,7 @@ func replayC16(r *fw.Run, raw json.RawMessage) {
 func init() {
 	fw.Register(&fw.Engine{
 		ID: "C16", Level: "exploration", Race: true,
-		Rule: "race-detector build of the driver. Every pair (thorough: and triple) of {Shutdown, GetListener x20, RegisterInterface with a new name, RegisterInterface with a registered name, client connect + GetInfo + GetInterfaceDescription, client more-call with 3 replies, client abort mid-frame, cancel of the serving context} is started concurrently - seeded start offsets 0..2 ms - against a Listen or Bind+DoListen that is known to be serving (completed round trip) and holds one idle connection; 6 (thorough 40) repetitions per tuple and entry point. Then: connections used by one goroutine at a time (in-memory pipe, unix, TCP, real Connection, bridge) with cancelled and timed-out Read/ReadBytes/Write/Call, the caller overwriting its buffers as soon as each call has returned; handlers blocked in Call.Conn I/O while the serving context is cancelled; the concurrent-connection workload of C01 (thorough: also the real-socket epochs of C14 and the C17 matrix). Oracle: the Go race detector (GORACE halt_on_error=0, log files); a report counts if any of its stacks has a frame in github.com/varlink/go; reports are de-duplicated by the pair of first library frames. evaluations = tuples x repetitions; distinct by (tuple, entry point, offsets); evidence also counts the distinct begin/end orders observed per tuple. A third of the tuples serve with an (hour long) idle timeout; four triples around Shutdown + RegisterInterface + client call are part of the quick tier; an upgraded handler reads and writes its connection from two goroutines while the peer half-closes and then goes away.",
+		Rule: "race-detector build of the driver. Every pair (thorough: and triple) of {Shutdown, GetListener x20, RegisterInterface with a new name, RegisterInterface with a registered name, client connect + GetInfo + GetInterfaceDescription, client more-call with 3 replies, client abort mid-frame, cancel of the serving context} is started concurrently - seeded start offsets 0..2 ms - against a Listen or Bind+DoListen that is known to be serving (completed round trip) and holds one idle connection; 6 (thorough 40) repetitions per tuple and entry point. Then: connections used by one goroutine at a time (in-memory pipe, unix, TCP, real Connection, bridge) with cancelled and timed-out Read/ReadBytes/Write/Call, the caller overwriting its buffers as soon as each call has returned; handlers blocked in Call.Conn I/O while the serving context is cancelled; the concurrent-connection workload of C01 (thorough: also the real-socket epochs of C14 and the C17 matrix). Oracle: the Go race detector (GORACE halt_on_error=0, log files); a report counts if any of its stacks has a frame in github.com/varlink/go; reports are de-duplicated by the pair of first library frames. evaluations = tuples x repetitions; distinct by (tuple, entry point, offsets); evidence also counts the distinct begin/end orders observed per tuple. A third of the tuples serve with an (hour long) idle timeout; four triples around Shutdown + RegisterInterface + client call are part of the quick tier; an upgraded handler reads and writes its connection from two goroutines while the peer half-closes and then goes away; fresh services (readiness = bare connect, nothing answered yet) get their first calls from 2-6 connections released at the same instant.",
 		Assumptions: []string{"the race detector reports only races between accesses that both executed in this run", "reports without any library frame are harness-only and listed as notes"},
 		Run:         runC16, Replay: replayC16, CrashIsViolation: false, MinEvals: 20,
 		QuickTimeout: 20 * time.Minute, ThoroughTimeout: 90 * time.Minute,
